@@ -232,6 +232,8 @@ def redirect_set(chk, prog, st):
     # recursion only under the test
     rec_closures = [c for c in prog.all_closures_of(f) if c.calls_to(r"ClientRequest::<'a>::send$")]
     direct = [blk for blk, t in body.calls_to(r"ClientRequest::<'a>::send$")]
+    # `.and_then(Self::send)`: the function handed to a combinator as an item
+    direct += [blk for blk, t in body.calls() if any(a.get("k") == "const" and str(a.get("fn") or "").endswith("ClientRequest::<'a>::send") for a in t.get("args", []))]
     chk.floor("recursive send site", len(rec_closures) + len(direct), 1)
     fr = next((i for i, x in enumerate(prog.structs["humphrey::client::ClientRequest"]["fields"]) if x["name"] == "follow_redirects"), None)
     # flat form (no closures): the re-send is a call in send() itself
